@@ -27,7 +27,7 @@ import Mathlib.Logic.Equiv.Fin.Basic
 
 open Finset BigOperators Matrix
 
-namespace GT
+namespace GT.Iso
 
 variable {K : Type*} [Field K] {n m : ℕ}
 
@@ -48,11 +48,11 @@ def applyRow {p : ℕ} (M : Matrix (Fin p) (Fin p) K) (x : Fin p → K) : Fin p 
 def compose {p : ℕ} (A B : Matrix (Fin p) (Fin p) K) : Matrix (Fin p) (Fin p) K := B * A
 
 /-- `Transformation.inv`: `utils.invert(self.matrix)` -/
-noncomputable def inv {p : ℕ} (A : Matrix (Fin p) (Fin p) K) : Matrix (Fin p) (Fin p) K := A⁻¹
+noncomputable def tinv {p : ℕ} (A : Matrix (Fin p) (Fin p) K) : Matrix (Fin p) (Fin p) K := A⁻¹
 
 /-- a letter of a word of isometries: a matrix, or (`true`) its `.inv()` -/
 noncomputable def letterMat {p : ℕ} (l : Matrix (Fin p) (Fin p) K × Bool) : Matrix (Fin p) (Fin p) K :=
-  if l.2 then inv l.1 else l.1
+  if l.2 then tinv l.1 else l.1
 
 /-- `l₁ @ l₂ @ … @ l_k` (Python's `@` associates to the left), starting from
 `hyperbolic.identity`: stored matrix `l_k · … · l₁` -/
@@ -152,12 +152,12 @@ whatever hyperplane basis the SVD chose -/
 def reflClosed (d : Fin (n + 1) → K) : Matrix (Fin (n + 1)) (Fin (n + 1)) K :=
   fun i j => (if i = j then 1 else 0) - 2 * (minkDiag n i * d i) * d j / mink d d
 
-end GT
+end GT.Iso
 
 /-! ### exact residuals (driver: evaluated on the implementation's float output, sent as exact
 dyadic rationals) -/
 
-namespace GT
+namespace GT.Iso
 
 /-- `max_{i,j} |R i j|` (0 for an empty matrix) -/
 def maxAbs {K : Type*} [Field K] [LinearOrder K] {p q : ℕ} (R : Matrix (Fin p) (Fin q) K) : K :=
@@ -170,4 +170,4 @@ def isoResidual {K : Type} [Field K] [LinearOrder K] [Inhabited K] {n : ℕ}
   let R := DMat.ofMatrix (T.toMatrix * Mᵀ - minkJ n)
   maxAbs R.toMatrix
 
-end GT
+end GT.Iso
